@@ -4,6 +4,8 @@ Property theorems only.
 -/
 import OAP.Model.Frame
 import OAP.Spec.Layout
+import OAP.Proofs.Frame
+import OAP.Props.C09
 namespace OAP.C02
 open OAP OAP.Frame
 
@@ -22,5 +24,84 @@ theorem known_nibbles : ∀ b : Fin 256,
     (isUnknown (ubType .v1 (UInt8.ofFin b)) = !(b.val % 16 == 1 || b.val % 16 == 2 || b.val % 16 == 3)) ∧
     (isUnknown (ubType .v2 (UInt8.ofFin b)) = !(b.val % 16 == 1 || b.val % 16 == 2 || b.val % 16 == 3)) := by
   decide +kernel
+
+/-- ENCODER DIRECTION: whatever `Pack` emits — any packet, version, gzip threshold and gzip oracle —
+is byte for byte the published layout of the packet as it leaves Pack (`specOf`: reserve = 0, cmd
+truncated to 8 bits, v2 metadata block = sorted MarshalValues(65535), body as on the wire) -/
+theorem pack_conforms (v : Ver) (gz : GzOracle) (p p' : Packet) (thr : Int) (bs : Bytes)
+    (h : pack v gz p thr = .ok (bs, p')) : bs = Spec.encode v (specOf v p') :=
+  (pack_ok_inv v gz p p' thr bs h).2.2.2
+
+/-- DECODER DIRECTION: every frame of the published layout with a known type, in-range fields and
+consistent variable parts (`ValidFrame`, in OAP/Proofs/Frame.lean) is accepted by the one-shot decoder
+and decoded to exactly the layout's field values (`packetOf`) — every type nibble in {1,2,3}, every
+flag combination, every reserve value 0..3, every field extreme, both versions -/
+theorem decode_accepts (v : Ver) (gz : GzOracle) (codec : UInt8) (f : Spec.Frame) (content : Bytes)
+    (ps : List Metadata.Pair) (hv : ValidFrame v gz f content ps) :
+    unpackBytes v gz codec (Spec.encode v f) = .ok (packetOf f codec content ps) :=
+  unpackBytes_spec v gz codec f content ps hv
+
+/-- the reserve bits are ignored by the decoder: same packet for every reserve value -/
+theorem decode_ignores_reserve (v : Ver) (gz : GzOracle) (codec : UInt8) (f : Spec.Frame) (content : Bytes)
+    (ps : List Metadata.Pair) (hv : ValidFrame v gz f content ps) (r : Nat) (hr : r ≤ 3) :
+    unpackBytes v gz codec (Spec.encode v { f with reserve := r }) = unpackBytes v gz codec (Spec.encode v f) := by
+  have hv' : ValidFrame v gz { f with reserve := r } content ps :=
+    { type := hv.type, verify := hv.verify, gzip := hv.gzip, reserve := hr, cmd := hv.cmd, rid := hv.rid,
+      timeout := hv.timeout, status := hv.status, nonce := hv.nonce, sig := hv.sig, body := hv.body, md1 := hv.md1,
+      mdlen := hv.mdlen, md2 := hv.md2, gz1 := hv.gz1, gz0 := hv.gz0 }
+  rw [decode_accepts v gz codec _ content ps hv', decode_accepts v gz codec f content ps hv]
+  rfl
+
+/-- every strict prefix of a valid frame is rejected with an error (never accepted, never a panic) -/
+theorem decode_rejects_strict_prefix (v : Ver) (gz : GzOracle) (codec : UInt8) (f : Spec.Frame) (content : Bytes)
+    (ps : List Metadata.Pair) (hv : ValidFrame v gz f content ps) (k : Nat) (hk : k < (Spec.encode v f).length) :
+    ∃ e, unpackBytes v gz codec ((Spec.encode v f).take k) = .err e :=
+  unpackBytes_prefix v gz codec f content ps hv k hk
+
+/-- for ANY input: acceptance needs the whole frame — a known type nibble, the complete header and,
+after it, at least the announced metadata block, the announced body and (verify bit set) the 24-byte
+trailer. (`mdLenOf v H` is 0 for v1 and the header's metadata_len for v2.) -/
+theorem decode_needs_whole_frame (v : Ver) (gz : GzOracle) (codec : UInt8) (bs : Bytes) (p : Packet)
+    (h : unpackBytes v gz codec bs = .ok p) :
+    ∃ b0 rest H, bs = b0 :: rest ∧ isUnknown (ubType v b0) = false ∧
+      Header.unpackBytes v bs = .ok (H, bs.drop (hdrLen v (ubType v b0))) ∧
+      hdrLen v (ubType v b0) + mdLenOf v H + H.bodyLength.toNat +
+        (if (ubVerify v b0 == 1) = true then 24 else 0) ≤ bs.length :=
+  unpackBytes_ok_length v gz codec bs p h
+
+/-! non-vacuity: a v2 response with verify, reserve = 2, one metadata pair, a 3-byte body -/
+
+def exFrame : Spec.Frame :=
+  { type := 2, verify := 1, gzip := 0, reserve := 2, cmd := 7, rid := 0x01020304, status := 9
+    md := [1, 0x61, 1, 0x78], body := [1, 2, 3], nonce := 5, sig := List.replicate 16 0xAA }
+
+theorem exFrame_valid (gz : GzOracle) : ValidFrame .v2 gz exFrame [1, 2, 3] [([0x61], [0x78])] :=
+  { type := by decide, verify := by decide, gzip := by decide, reserve := by decide, cmd := by decide
+    rid := by decide, timeout := by decide, status := by decide, nonce := by decide, sig := by decide
+    body := by decide, mdlen := by decide
+    md1 := by intro h; cases h
+    md2 := fun _ => C09.decode_complete [([0x61], [0x78])] (by decide)
+    gz1 := by intro h; cases h
+    gz0 := fun _ => rfl }
+
+example : Spec.encode .v2 exFrame =
+    [0x92, 7, 1, 2, 3, 4, 9, 0, 4, 0, 0, 3, 1, 0x61, 1, 0x78, 1, 2, 3, 0, 0, 0, 0, 0, 0, 0, 5] ++ List.replicate 16 0xAA := by
+  decide
+
+example (gz : GzOracle) : unpackBytes .v2 gz 1 (Spec.encode .v2 exFrame) =
+    .ok { type := .response, cmd := 7, rid := 0x01020304, status := 9, verify := true, nonce := 5
+          signature := List.replicate 16 0xAA, values := [([0x61], [0x78])], codec := 1, body := [1, 2, 3] } := by
+  rw [decode_accepts .v2 gz 1 exFrame _ _ (exFrame_valid gz)]; decide
+
+/-- … and a compressed v1 request: the oracle's verdict on the wire body is what the packet carries -/
+example : ValidFrame .v1 { compress := fun _ => .err "", read := fun c => if c = [9, 9] then some ([1, 2, 3, 4], true) else none }
+    { type := 1, verify := 0, gzip := 1, reserve := 3, cmd := 255, rid := 4294967295, timeout := 65535, body := [9, 9] }
+    [1, 2, 3, 4] [] :=
+  { type := by decide, verify := by decide, gzip := by decide, reserve := by decide, cmd := by decide
+    rid := by decide, timeout := by decide, status := by decide, nonce := by decide, sig := by decide
+    body := by decide, md1 := fun _ => ⟨rfl, rfl⟩, mdlen := by decide
+    md2 := by intro h; cases h
+    gz1 := fun _ => by decide
+    gz0 := by intro h; cases h }
 
 end OAP.C02
